@@ -7,11 +7,20 @@ import sys
 
 ID = 'C01'
 LEVEL = 'other'
-TARGETS = [
-    'selfies/grammar_rules.py::next_atom_state',
-    'selfies/grammar_rules.py::next_branch_state',
-    'selfies/grammar_rules.py::next_ring_state',
-]
+TARGETS = ['selfies/grammar_rules.py::next_atom_state',
+           'selfies/grammar_rules.py::next_branch_state',
+           'selfies/grammar_rules.py::next_ring_state',
+           'selfies/mol_graph.py::MolecularGraph.__len__',
+           'selfies/mol_graph.py::MolecularGraph.get_atom',
+           'selfies/mol_graph.py::MolecularGraph.get_bond_count',
+           'selfies/mol_graph.py::MolecularGraph.has_bond',
+           'selfies/mol_graph.py::MolecularGraph.get_dirbond',
+           'selfies/mol_graph.py::MolecularGraph.add_atom',
+           'selfies/mol_graph.py::MolecularGraph.add_bond',
+           'selfies/mol_graph.py::MolecularGraph.add_ring_bond',
+           'selfies/mol_graph.py::MolecularGraph.update_bond_order',
+           'selfies/utils/smiles_utils.py::bond_to_smiles',
+           'selfies/bond_constraints.py::get_bonding_capacity']
 EXPLANATION = (
     "Mixed. PROVED (deductive, all inputs and all tables - the capacity is a symbolic integer): the clip clauses of "
     "the state functions (bond order <= requested, <= state, <= capacity of the new atom; branch split "
